@@ -459,7 +459,9 @@ class WCSHelper(object):
 
         x = int(np.clip(x, 0, self.psf_map.shape[1] - 1))
         y = int(np.clip(y, 0, self.psf_map.shape[2] - 1))
-        psf_sky = self.psf_map[:3, x, y]
+        # a copy: indexing the (memory mapped) psf image gives a writable view,
+        # and a caller that edits the returned psf would edit the map itself
+        psf_sky = np.array(self.psf_map[:3, x, y])
         return psf_sky
 
     def get_psf_sky2pix(self, ra, dec):
